@@ -100,12 +100,16 @@ def budget_sweep(rng, iid0, basecfg, nref, step=1):
     return out
 
 
-def fault_sweep(iid0, basecfg, nref, kinds=("nan", "nan1", "pinf", "ninf", "huge", "raise", "raise_linalg", "raise_value", "raise_zerodiv"), step=1):
+def fault_sweep(iid0, basecfg, nref, kinds=("nan", "nan1", "pinf", "ninf", "huge", "raise", "raise_linalg", "raise_value", "raise_zerodiv", "raise_overflow",
+                                             "raise_fpe", "raise_type", "raise_index", "raise_key"), step=1):
     out = []
     for kind in kinds:
         # exception types the library itself catches around some of its own calls: every position (only a few evaluations sit inside such a block)
         st = 1 if kind in ("raise_linalg", "raise_value") else step
-        for k in list(range(1, nref + 1, st)) + [-1]:
+        pos = list(range(1, nref + 1, st)) + [-1]
+        if kind in ("raise_fpe", "raise_type", "raise_index", "raise_key"):
+            pos = sorted(set([1, 2, max(1, nref // 2), nref]))      # types the library catches nowhere today: a few positions
+        for k in pos:
             d = dict(basecfg)
             d["id"] = iid0 + len(out)
             d["fault"] = dict(k=k, kind=kind)
